@@ -80,6 +80,12 @@ type nodeRT struct {
 	waitApply bool
 	outIDs    []int
 
+	// a Ready that carries a snapshot becomes durable atomically with its hard state: on restart
+	// node/raft.go ignores a saved snapshot newer than the persisted commit index
+	// (wal.ValidSnapshotEntries), so SaveSnap alone does not change what a restart sees
+	pendSnap *pb.Snapshot
+	pendEnts []pb.Entry
+
 	applyQ  []applyStep
 	app     appState
 	blocked *confWait
@@ -433,6 +439,7 @@ func (c *Cluster) crash(nd *nodeRT) {
 		delete(c.net, -id)
 	}
 	nd.rd, nd.stages, nd.outIDs = nil, nil, nil
+	nd.pendSnap, nd.pendEnts = nil, nil
 	nd.applyQ = nil
 }
 
@@ -531,18 +538,28 @@ func (c *Cluster) readyStage(nd *nodeRT, rec *Record) {
 		}
 	case "psnap":
 		if !raft.IsEmptySnap(rd.Snapshot) {
-			if err := nd.st.ApplySnapshot(rd.Snapshot); err != nil {
-				rec.Res = errName(err)
-			}
+			sn := rd.Snapshot
+			nd.pendSnap = &sn
 		}
 	case "pents":
-		if err := nd.st.Append(rd.Entries); err != nil {
+		if nd.pendSnap != nil {
+			nd.pendEnts = rd.Entries
+		} else if err := nd.st.Append(rd.Entries); err != nil {
 			rec.Res = errName(err)
 		}
 	case "phs":
+		if nd.pendSnap != nil {
+			if err := nd.st.ApplySnapshot(*nd.pendSnap); err != nil {
+				rec.Res = errName(err)
+			}
+			if err := nd.st.Append(nd.pendEnts); err != nil {
+				rec.Res += errName(err)
+			}
+			nd.pendSnap, nd.pendEnts = nil, nil
+		}
 		if !raft.IsEmptyHardState(rd.HardState) {
 			if err := nd.st.SetHardState(rd.HardState); err != nil {
-				rec.Res = errName(err)
+				rec.Res += errName(err)
 			}
 		}
 	case "wait":
